@@ -18,6 +18,8 @@ Record ccase := mkCase {
   c_gty : list N;                       (* per graph: which of the two state types it declares *)
   c_nty : list (N * (N * (N * N)));     (* per node: state type its pre-handler / post-handler /
                                            ProcessState calls are written for *)
+  c_failing : bool;                     (* the user function of some critical section returns an
+                                           error (after updating the state): the run must fail *)
   c_x0 : X;
   c_runs : N;
   c_builderr : bool;                    (* AddNode / Compile refused the program *)
@@ -98,7 +100,8 @@ Definition count_run (l : list item) (r : N) : nat :=
    210 number of sections, 211 a section differs (run, node, kind, value in, value out, state
    seen), 212 object identities, 213 final value of an object, 214 result of a run,
    215 generator calls, 216/217 conclusions of the theorems evaluated on the configuration,
-   218 the program is not well formed (hypothesis of nested_between) *)
+   218 the program is not well formed (hypothesis of nested_between), 219/220 conclusions of
+   acquisition_order / the generator-call clause evaluated *)
 Definition check_lts (c : ccase) : N :=
   let f := c_forest c in
   match drive f (c_x0 c) (c_runs c) (c_log c) with
@@ -126,10 +129,12 @@ Definition check_lts (c : ccase) : N :=
                                             | None => false
                                             end
                                 end) (c_results c)) then 214 else
-    if negb (must_fail_t f (c_gty c) (c_nty c)) && negb (N.eqb (N.of_nat (List.length (StateLockLTS.c_gens g))) (c_gens c)) then 215 else
+    if negb ((c_failing c || must_fail_t f (c_gty c) (c_nty c))) && negb (N.eqb (N.of_nat (List.length (StateLockLTS.c_gens g))) (c_gens c)) then 215 else
     if negb (fold_ok g) then 216 else
     if negb (order_done_ok f g) then 217 else
-    if negb (topo_ok f) then 218 else 0   (* hypothesis of nested_between *)
+    if negb (topo_ok f) then 218 else     (* hypothesis of nested_between *)
+    if negb (acq_ok g) then 219 else
+    if negb (gens_ok g) then 220 else 0
   end.
 
 Definition check_spec (c : ccase) : N :=     (* 0 = agree, otherwise the first check that failed *)
@@ -155,8 +160,8 @@ Definition check_spec (c : ccase) : N :=     (* 0 = agree, otherwise the first c
     (* results *)
     if negb (forallb (fun ro =>
           match snd ro with
-          | OErr => must_fail_t f (c_gty c) (c_nty c)
-          | OVal x => negb (must_fail_t f (c_gty c) (c_nty c)) &&
+          | OErr => (c_failing c || must_fail_t f (c_gty c) (c_nty c))
+          | OVal x => negb ((c_failing c || must_fail_t f (c_gty c) (c_nty c))) &&
                       match spec_result f (c_x0 c) st (fst ro) with
                       | Some y => x_eqb x y
                       | None => false
@@ -165,7 +170,7 @@ Definition check_spec (c : ccase) : N :=     (* 0 = agree, otherwise the first c
           end) (c_results c)) then 33 else
     if negb (N.eqb (N.of_nat (List.length (c_results c))) (c_runs c)) then 34 else
     (* generator calls = runs x stateful graphs (complete runs) *)
-    if negb (must_fail_t f (c_gty c) (c_nty c)) && negb (N.eqb (c_gens c) (c_runs c * stateful_count f)) then 35
+    if negb ((c_failing c || must_fail_t f (c_gty c) (c_nty c))) && negb (N.eqb (c_gens c) (c_runs c * stateful_count f)) then 35
     else 0
   end.
 
